@@ -271,7 +271,8 @@ def step (st : St) (pre post : List String) : St × Verdict :=
           | none => .propfail s!"proof-forged-root-{cls}" line
           | some false => if mv = verdict then .propfail s!"proof-forged-{cls}" line else .propfail s!"proof-forged-unmodelled-{cls}" line
           | some true =>
-            if label = "honest" then (if mv = verdict then .ok else .diff s!"model={mv} impl={verdict}")
+            -- an honest proof, or a valid proof re-used for another key about which it is also right
+            if label = "honest" ∨ label = "altered-key" then (if mv = verdict then .ok else .diff s!"model={mv} impl={verdict}")
             else if mv = verdict then .propfail s!"proof-malleable-{cls}" line
             else .propfail s!"proof-malleable-unmodelled-{cls}" line
         else if label = "honest" then
